@@ -295,3 +295,26 @@ def run(ctx):
     ctx.ob('R20.5', 'initialize_server|worker server gets worker_secret_key', 'worker_secret_key' in ksrc and 'client_secret_key' not in ksrc,
            f'the key handed to tako server_start (worker connections) is ServerConfig.worker_secret_key (observed {sorted(ksrc & {"worker_secret_key", "client_secret_key"})})', ib_.loc(ss_[0]))
 
+    # ---- R20.6 a key that is present but damaged is an error, never "no key"
+    ctx.rule('R20.6', 'access file / server directory: serde_deserialize_key turns a key string that cannot be decoded into a load error (serde Error::custom); swallowing the error (Result::ok, unwrap_or*, and_then(..ok())) yields None, i.e. the endpoint silently runs without authentication and accepts a peer that holds no key')
+    sdk = [p_ for p_ in prog.bodies if p_.endswith('serverdir::serde_deserialize_key')]
+    ctx.require(len(sdk) == 1, 'R20.6: serde_deserialize_key not found')
+    sb6 = [prog.bodies[p_] for p_ in prog.with_closures(sdk[0])]
+    dk = [(b_, bi_) for b_ in sb6 for bi_ in b_.call_blocks(lambda c: c.endswith('::deserialize_key') and 'serde_' not in c.split('::')[-1])]
+    swallow = [(b_, bi_, c_) for b_ in sb6 for bi_, t_, c_ in b_.calls() if bi_ in b_.reachable() and (c_ or '').endswith(('Result::ok', 'Result::unwrap_or', 'Result::unwrap_or_default', 'Result::unwrap_or_else', 'Result::is_ok', 'Result::is_err'))]
+    custom = [(b_, bi_) for b_ in sb6 for bi_, t_, c_ in b_.calls() if bi_ in b_.reachable() and (callee_decl(t_) or c_ or '').endswith('de::Error::custom')]
+    ctx.ob('R20.6', 'serde_deserialize_key|undecodable key is an error', bool(dk) and bool(custom) and not swallow,
+           f'the result of deserialize_key is propagated as a deserialization error (error-swallowing calls: {[c_.split("::")[-1] for b_, i_, c_ in swallow]})', sb6[0].loc())
+
+    # ---- R20.7 handshake frames are decoded strictly
+    ctx.rule('R20.7', 'handshake (de)serialisation uses the same strict bincode options on both sides (DefaultOptions: trailing bytes rejected, with_limit, with_fixint_encoding); bincode::deserialize (legacy config) accepts a frame a man-in-the-middle extended')
+    ser_, des_ = prog.body(AUTHM + 'serialize'), prog.body(AUTHM + 'deserialize')
+    def _opts(b_):
+        return sorted((c_ or '').split('::')[-1] for bi_, t_, c_ in b_.calls() if bi_ in b_.reachable() and (c_ or '').startswith('bincode::') and not (c_ or '').endswith(('::serialize', '::deserialize')))
+    so, do = _opts(ser_), _opts(des_)
+    strict = bool(des_.call_blocks('bincode::config::Options::deserialize')) and bool(des_.call_blocks('bincode::config::DefaultOptions::new')) and \
+        not [1 for bi_, t_, c_ in des_.calls() if (c_ or '') in ('bincode::deserialize', 'bincode::internal::deserialize') or (c_ or '').endswith(('allow_trailing_bytes', 'deserialize_from'))]
+    ctx.ob('R20.7', 'auth::deserialize|strict options', strict, f'handshake frames are decoded with DefaultOptions (reject trailing bytes), observed option calls {do}', des_.loc())
+    ctx.ob('R20.7', 'auth::serialize/deserialize|same options', so == do and bool(so), f'both directions use the same bincode options (serialize {so}, deserialize {do})', ser_.loc())
+
+
